@@ -707,12 +707,12 @@ func (l *Lowerer) lowerStruct(s *parser.StructDecl) error {
 		align, size := l.typeAlignmentAndSize(typeHandle)
 
 		// Check for explicit @align(N) attribute on the member
-		if explicitAlign := getAlignAttribute(m.Attributes); explicitAlign > 0 {
+		if explicitAlign := l.getAlignAttribute(m.Attributes); explicitAlign > 0 {
 			align = explicitAlign
 		}
 
 		// Check for explicit @size(N) attribute on the member
-		if explicitSize := getSizeAttribute(m.Attributes); explicitSize > 0 {
+		if explicitSize := l.getSizeAttribute(m.Attributes); explicitSize > 0 {
 			size = explicitSize
 		}
 
@@ -738,29 +738,23 @@ func (l *Lowerer) lowerStruct(s *parser.StructDecl) error {
 }
 
 // getAlignAttribute extracts the value from an @align(N) attribute, returns 0 if not found.
-func getAlignAttribute(attrs []parser.Attribute) uint32 {
-	for _, attr := range attrs {
-		if attr.Name == "align" && len(attr.Args) == 1 {
-			if lit, ok := attr.Args[0].(*parser.Literal); ok {
-				var val uint32
-				if _, err := fmt.Sscanf(lit.Value, "%d", &val); err == nil {
-					return val
-				}
-			}
-		}
-	}
-	return 0
+func (l *Lowerer) getAlignAttribute(attrs []parser.Attribute) uint32 {
+	return l.layoutAttributeValue(attrs, "align")
 }
 
 // getSizeAttribute extracts the value from a @size(N) attribute, returns 0 if not found.
-func getSizeAttribute(attrs []parser.Attribute) uint32 {
+func (l *Lowerer) getSizeAttribute(attrs []parser.Attribute) uint32 {
+	return l.layoutAttributeValue(attrs, "size")
+}
+
+// layoutAttributeValue evaluates the argument of @align / @size. WGSL allows any
+// const-expression of integer type there: decimal or hex literals, with or
+// without suffix, and named constants.
+func (l *Lowerer) layoutAttributeValue(attrs []parser.Attribute, name string) uint32 {
 	for _, attr := range attrs {
-		if attr.Name == "size" && len(attr.Args) == 1 {
-			if lit, ok := attr.Args[0].(*parser.Literal); ok {
-				var val uint32
-				if _, err := fmt.Sscanf(lit.Value, "%d", &val); err == nil {
-					return val
-				}
+		if attr.Name == name && len(attr.Args) == 1 {
+			if _, val, err := l.evalConstantIntExpr(attr.Args[0]); err == nil && val > 0 && val <= math.MaxUint32 {
+				return uint32(val)
 			}
 		}
 	}
